@@ -502,6 +502,9 @@ func Generate(seed uint64, opt GenOptions) *Scenario {
 				op.TZ = g.chance(tzShare)
 				op.Zone = genZones[g.r.IntN(len(genZones))]
 				op.TZOuter = g.chance(0.3)
+				if !op.TZOuter && op.Zone != "" && g.chance(0.2) {
+					op.TZDerive = genZones[2+g.r.IntN(len(genZones)-2)]
+				}
 				switch n := g.r.IntN(10); {
 				case n < 4:
 					op.Ctx = ""
@@ -656,6 +659,9 @@ func TwinScenario(idx int, mode string) *Scenario {
 			o.TZ = true
 			o.Zone = zone
 			o.TZOuter = variant%4 == 1
+			if variant%4 == 3 && zone != "" && kind != "query" {
+				o.TZDerive = "Europe/London"
+			}
 			o.Silent = (idx+variant)%3 == 0
 		}
 		switch kind {
